@@ -63,7 +63,9 @@ pub fn classify(flat: &[(&M, &D)], warnings: &[String]) -> Vec<(bool, bool)> {
     for (i, (_, d)) in flat.iter().enumerate().rev() {
         let valid = !val_warned(warnings, &d.name);
         let mut gen = !gen_warned(warnings, &d.name);
-        if valid && gen {
+        // a definition shadowed by a later one of the same bare name never reaches the generator
+        let shadowed = flat[i + 1..].iter().any(|(_, d2)| d2.name == d.name);
+        if valid && gen && !shadowed {
             match d.fault.as_deref() {
                 Some("REAL") if real > 0 => {
                     real -= 1;
